@@ -2,7 +2,7 @@ import Drivers.Common
 import SpecVerif.Writer.Ref
 open SpecVerif SpecVerif.Writer Drivers
 
-def F := nativeFloat
+def F := modelFloat
 
 def scalarEnc (kind arg : String) : Option Bytes :=
   match kind with
